@@ -292,6 +292,53 @@ func c06Shape(shape string, r rune) string {
 	return "a" + x + "b"
 }
 
+// c06Key is a compact rendering of everything c06Family1 would record for s, with the swept character
+// replaced by the placeholder: equal keys = equal observations.  (The records themselves are built by
+// c06Family1, once per run.)
+func c06Key(br *bufio.Reader, s, x string, sub bool) string {
+	var b strings.Builder
+	put := func(t string) {
+		if sub {
+			t = strings.Replace(t, x, c06Placeholder, -1)
+		}
+		b.WriteString(t)
+		b.WriteByte(0)
+	}
+	scan := func(text string) {
+		br.Reset(strings.NewReader(text)) // NewScanner wraps its reader with bufio.NewReader, which returns a *bufio.Reader as it is
+		sc := influxql.NewScanner(br)
+		limit := utf8.RuneCountInString(text) + 4
+		for k := 0; k < limit; k++ {
+			tok, _, lit := sc.Scan()
+			b.WriteString(tokName(tok))
+			b.WriteByte(1)
+			put(lit)
+			if tok == influxql.EOF {
+				break
+			}
+		}
+		b.WriteByte(2)
+	}
+	if p := guard(func() {
+		qs, qi := influxql.QuoteString(s), influxql.QuoteIdent(s)
+		put(qs)
+		put(qi)
+		if influxql.IdentNeedsQuotes(s) {
+			b.WriteByte('T')
+		} else {
+			b.WriteByte('F')
+		}
+		scan(qs)
+		scan(qi)
+		scan(influxql.QuoteIdent(s, "", s))
+		scan(influxql.QuoteIdent(s, s, s))
+		scan(s)
+	}); p != "" {
+		return "panic:" + p
+	}
+	return b.String()
+}
+
 // c06Sweep runs the first family on the framed string for every code point of the block and
 // returns one record per maximal run of code points with the same observation (non-ASCII code
 // points written as the placeholder).  Nothing is judged here: the runs are what Judge_c06 reads.
@@ -302,44 +349,46 @@ func c06Sweep(c M) M {
 	type run struct {
 		lo, hi rune
 		n      int
-		inp    []interface{}
-		obs    M
 		key    string
 	}
 	var runs []*run
+	br := bufio.NewReader(strings.NewReader(""))
 	for r := lo; r <= hi; r++ {
 		if r >= 0xD800 && r <= 0xDFFF {
 			continue // not scalar values: no Go string holds them
 		}
-		s := c06Shape(shape, r)
-		inp := c06Chars(s)
-		o := c06Family1(M{"inp": inp})
-		if r >= 0x80 {
-			inp = c06Subst(inp, string(r), c06Placeholder).([]interface{})
-			o = c06Subst(o, string(r), c06Placeholder).(M)
+		key := c06Key(br, c06Shape(shape, r), string(r), r >= 0x80)
+		if r < 0x80 {
+			key = string(r) + key // ASCII characters are never merged
 		}
-		kb, _ := json.Marshal([]interface{}{inp, o})
-		key := string(kb)
 		if n := len(runs); n > 0 && runs[n-1].key == key {
 			runs[n-1].hi = r
 			runs[n-1].n++
 			continue
 		}
-		runs = append(runs, &run{lo: r, hi: r, n: 1, inp: inp, obs: o, key: key})
+		runs = append(runs, &run{lo: r, hi: r, n: 1, key: key})
 	}
 	if len(runs) == 0 {
 		return M{"empty": true}
 	}
-	out := M{}
-	for k, v := range runs[0].obs {
-		out[k] = v
+	// the record of a run: the observation of its first code point
+	rec := func(u *run) ([]interface{}, M) {
+		inp := c06Chars(c06Shape(shape, u.lo))
+		o := c06Family1(M{"inp": inp})
+		if u.lo >= 0x80 {
+			inp = c06Subst(inp, string(u.lo), c06Placeholder).([]interface{})
+			o = c06Subst(o, string(u.lo), c06Placeholder).(M)
+		}
+		return inp, o
 	}
-	c["inp"] = runs[0].inp
+	inp0, out := rec(runs[0])
+	c["inp"] = inp0
 	c["sweep"] = []interface{}{int(runs[0].lo), int(runs[0].hi)}
 	out["runlen"] = runs[0].n
 	rest := []interface{}{}
 	for _, u := range runs[1:] {
-		rest = append(rest, M{"inp": u.inp, "obs": u.obs, "sweep": []interface{}{int(u.lo), int(u.hi)}, "runlen": u.n})
+		inp, o := rec(u)
+		rest = append(rest, M{"inp": inp, "obs": o, "sweep": []interface{}{int(u.lo), int(u.hi)}, "runlen": u.n})
 	}
 	if len(rest) > 0 {
 		out["rest"] = rest
